@@ -159,7 +159,7 @@ MANIFEST = {
             "mesh geometry helpers is typed over (length, excitation, mu0); B/H must come out with length degree 0/-1/-3 and excitation degree 1, "
             "and every comparison/mask/offset must be dimensionally homogeneous, which makes the formulas exactly homogeneous and every branch "
             "decision scale-free for all inputs and all scale factors at once. Absolute tolerances on lengths found today are genuine defects "
-            "recorded as known findings. Rounding effects and the CylinderSegment log cancellation are not decided. Round 3: no reduced-precision casts on the numerical path ((f), one triaged diagnostic site); known findings are keyed with the dimensions combined, so a different defect at a listed construct is reported.",
+            "recorded as known findings. Rounding effects and the CylinderSegment log cancellation are not decided. Round 3: no reduced-precision casts on the numerical path ((f), one triaged diagnostic site); known findings are keyed with the dimensions combined, so a different defect at a listed construct is reported. Rounds 4-5: k-d tree radii have the dimension of the points; no absolute thresholds on field values in the level-2 wrapper ((g)).",
     "design_ref": "DESIGN.md §3 C12",
     "note": "Trusted: the abstract interpreter and its NumPy transfer table, the declared parameter dimensions, one literal annotation (1e-7 = mu0/4pi), "
             "summaries of the elliptic-integral routines as dimensionless.",
